@@ -407,6 +407,22 @@ pub fn light(cfg: &Cfg, tier: Tier) -> usize {
 pub fn keys(seed: u64, len: usize) -> Vec<Vec<u8>> {
     vec![pattern(seed, 0xA11CE, len), pattern(seed, 0xB0B, len)]
 }
+/// Overwrite the part of this thread's stack that the next calls will use (192 KiB below the current frame) with zeros.
+/// Bytes of an object that no field owns (padding, the payload of an `Option` that is `None`) are copied from whatever
+/// the stack held; after a scrub that content is a function of the history executed since, not of what the harness
+/// did before, so two executions of one history see the same residue.
+#[inline(never)]
+pub fn scrub_stack() {
+    let mut a = [0u8; 192 * 1024];
+    for i in (0..a.len()).step_by(64) {
+        // SAFETY-free volatile-like write: black_box keeps the stores
+        a[i] = std::hint::black_box(0);
+    }
+    for b in a.iter_mut() {
+        *b = 0;
+    }
+    std::hint::black_box(&mut a);
+}
 /// a dirty output buffer
 pub fn dirty(len: usize) -> Vec<u8> {
     (0..len).map(|i| 0xA5u8 ^ (i as u8).wrapping_mul(7)).collect()
